@@ -6,6 +6,8 @@
 #define BOOST_MULTI_ADAPTORS_BLAS_GEMV_HPP
 
 #include <boost/multi/adaptors/blas/core.hpp>
+
+#include <algorithm>  // for std::max
 #include <boost/multi/adaptors/blas/dot.hpp>
 
 #include <boost/multi/utility.hpp>
@@ -25,11 +27,12 @@ auto gemv_n(Context ctxt, typename MIt::element a, MIt m_first, Size count, XIt 
 	assert( y_first.stride() != 0 );  // BLAS generally doesn't support stride zero
 
 	if constexpr(! is_conjugated<MIt>::value) {
-		if     (m_first .stride()==1)   {ctxt->gemv('N', count, (*m_first).size(), &a, m_first.base()            , (*m_first).stride(), x_first.base(), x_first.stride(), &b, y_first.base(), y_first.stride());}
-		else if((*m_first).stride()==1) {ctxt->gemv('T', (*m_first).size(), count, &a, m_first.base()            ,   m_first .stride(), x_first.base(), x_first.stride(), &b, y_first.base(), y_first.stride());}
+		// when the matrix has a single column (row) its leading dimension is arbitrary, e.g. 1 if contiguous, but BLAS still requires lda >= number of rows
+		if     (m_first .stride()==1)   {ctxt->gemv('N', count, (*m_first).size(), &a, m_first.base()            , std::max<Size>((*m_first).stride(), count            ), x_first.base(), x_first.stride(), &b, y_first.base(), y_first.stride());}
+		else if((*m_first).stride()==1) {ctxt->gemv('T', (*m_first).size(), count, &a, m_first.base()            , std::max<Size>(  m_first .stride(), (*m_first).size()), x_first.base(), x_first.stride(), &b, y_first.base(), y_first.stride());}
 		else                           {assert(0); /*throw gemv_stride_error{"not BLAS-implemented"};*/}  // LCOV_EXCL_LINE
 	} else {
-		if     ((*m_first).stride()==1) {ctxt->gemv('C', (*m_first).size(), count, &a, underlying(m_first.base()), m_first. stride(), x_first.base(), x_first.stride(), &b, y_first.base(), y_first.stride());}
+		if     ((*m_first).stride()==1) {ctxt->gemv('C', (*m_first).size(), count, &a, underlying(m_first.base()), std::max<Size>(m_first. stride(), (*m_first).size()), x_first.base(), x_first.stride(), &b, y_first.base(), y_first.stride());}
 		else                           {assert(0); /*throw gemv_stride_error{"not BLAS-implemented"};*/}  // LCOV_EXCL_LINE
 	}
 
